@@ -1251,6 +1251,38 @@ HARNESSES += [
 ]
 
 
+def _refused(func):
+    def run(p):
+        try:
+            return func(p)
+        except Exception as exc:  # noqa
+            return ['raised', type(exc).__name__]
+    return run
+
+
+# pairs of the same kind of call on different data (a buffer or a context
+# shared by every call of that kind), one of them possibly refused
+HARNESSES += [
+    ('body encode ch 1 || body encode ch 2', [
+        _call('marshal ContentBody ch 1', lambda p: p.frame.marshal(
+            p.body.ContentBody(b'A' * 37 + b'\xce'), 1).hex()),
+        _call('marshal ContentBody ch 2', lambda p: p.frame.marshal(
+            p.body.ContentBody(b'payload of the other thread'), 2).hex())],
+     2, 3),
+    ('refused Decimal encode || Decimal encode', [
+        _call('field_table(Decimal of 12 digits)', _refused(
+            lambda p: p.encode.field_table(
+                {'d': A.D('123456789012.5'), 'e': A.D('1E+30')}).hex())),
+        _call('field_table(Decimals)', _refused(
+            lambda p: p.encode.field_table(_DEC_TABLE).hex()))], 2, 3,
+     {'custom': {1: lambda r: r == _DEC_WIRE.hex()}}),
+    ('refused Decimal encode || Decimal decode', [
+        _call('encode.decimal(1E+999999999)', _refused(
+            lambda p: p.encode.decimal(A.D('1E+999999999')).hex())),
+        _call('decode.field_table(decimals)', _refused(
+            lambda p: c16events.c(p.decode.field_table(_DEC_WIRE))))], 1, 2),
+]
+
 # the same header decoded again while another thread is between two looks at
 # whatever the library remembers about the last one (A-B-A)
 HARNESSES += [
